@@ -929,3 +929,94 @@ def gen_c10(tier, rng):
 def oracle_c10(op, kv, res, trace, flags):
     # every configuration must give the answer of the naive search, hence the same answer as every other configuration
     return oracle_mm(op, kv, res, trace, flags)
+
+# --------------------------------------------------------------------------
+# C08: find_iter / rfind_iter
+# --------------------------------------------------------------------------
+def greedy_py(h, x):
+    out = []; pos = 0
+    while pos <= len(h):
+        i = h.find(x, pos)
+        if i < 0:
+            break
+        out.append(i); pos = i + max(len(x), 1)
+    return out
+
+def rgreedy_py(h, x):
+    out = []; p = len(h)
+    while p is not None:
+        i = h.rfind(x, 0, p)
+        if i < 0:
+            break
+        out.append(i)
+        p = (p - 1 if p > 0 else None) if p == i else i
+    return out
+
+def gen_c08(tier, rng):
+    quick = tier == "quick"
+    cases = []
+    fam = []
+    # self-overlapping needles in highly repetitive haystacks
+    for (x, unit, tail) in ((b"aa", b"a", b""), (b"aba", b"ab", b"a"), (b"aaa", b"a", b"b"), (b"abab", b"ab", b""),
+                            (b"abcabc", b"abc", b"ab"), (b"a", b"a", b""), (b"ab", b"ab", b"a")):
+        for k in (0, 1, 2, 3, 5, 8, 13, 21, 40, 70):
+            fam.append((x, unit * k + tail))
+            fam.append((x, b"q" + unit * k + tail + b"q" + unit * 3))
+    # empty needle
+    for L in (0, 1, 2, 5, 16, 17, 63, 64, 65, 100):
+        fam.append((b"", bytes(0x61 + i % 3 for i in range(L))))
+    # long needles (Two-Way + prefilter): early part drives the prefilter inert before later matches
+    for x in (b"xy" + b"z" * 40, b"ab" * 20 + b"c", bytes(range(1, 41))):
+        junk = (x[:2] + b"q") * 70
+        fam.append((x, junk + x + b"mid" + x + junk[:30] + x))
+        fam.append((x, x + x + x[:-1] + b"!" + x))
+        fam.append((x, junk))
+    # packed-pair range and short
+    for x in (b"foo", b"ab", bytes(range(1, 20)), bytes(range(1, 33))):
+        fam.append((x, (x + b"--") * 9 + x))
+        fam.append((x, b"q" * 70 + x + b"q" * 3 + x))
+    pairs = substring_pairs(rng, quick)
+    fam += pairs[:: (37 if quick else 5)]
+    k = 0
+    for (x, h) in fam:
+        k += 1
+        n_f = len(greedy_py(h, x)); n_r = len(rgreedy_py(h, x))
+        cfg = ["auto", "none"][k % 2]
+        rk = RANKS_MM[k % len(RANKS_MM)]
+        cpu = CPUS[k % 3]; cpus = f" cpu={cpu}" if cpu else ""
+        cases.append(f"mmiter dir=f cfg={cfg} rank={rk}{cpus} k={n_f + 3} x={hexs(x)} h={hexs(h)} a={(k * 3) % 64}")
+        cases.append(f"mmiter dir=r k={n_r + 3} x={hexs(x)} h={hexs(h)} a={(k * 3) % 64}")
+        if n_f > 2:
+            cases.append(f"mmiter dir=f cfg={cfg} rank={rk}{cpus} k={n_f // 2} x={hexs(x)} h={hexs(h)}")
+    return cases
+
+def oracle_c08(op, kv, res, trace, flags):
+    x = bytes.fromhex(kv.get("x", "")); h = bytes.fromhex(kv.get("h", ""))
+    k = int(kv["k"])
+    if flags:
+        return f"{op}: load outside the slices: {flags}"
+    if res.startswith("Panic") or res.startswith("CRASH"):
+        return f"{op} did not return normally: {res}"
+    outs = res.split(";") if res else []
+    if kv.get("dir") == "r":
+        seq = rgreedy_py(h, x)
+        want = [f"Some({i})" for i in seq] + ["None"] * k
+        if outs != want[:k]:
+            return f"rfind_iter yielded {outs[:12]}..., the mirror-image greedy sequence is {want[:min(k, 12)]}..."
+        return None
+    seq = greedy_py(h, x)
+    if len(outs) != k:
+        return f"find_iter: {len(outs)} outputs for {k} calls"
+    for j, o in enumerate(outs):
+        hint, val = o.split(":")
+        lo, hi = hint.split("-")
+        remaining = max(0, len(seq) - j)
+        want = f"Some({seq[j]})" if j < len(seq) else "None"
+        if val != want:
+            return f"find_iter call {j} returned {val}, the greedy sequence has {want}"
+        if not (int(lo) <= remaining and (hi == "inf" or remaining <= int(hi))):
+            return f"find_iter size_hint before call {j} is ({lo},{hi}) but {remaining} matches are still to come"
+    return None
+
+def nontrivial_c08(op, kv):
+    return len(kv.get("h", "")) >= 8
